@@ -167,6 +167,81 @@ def chained_shapes(rng, n):
     return out
 
 
+def loop_tail_shapes(rng, n, yields=False, family=None):
+    """loops whose body ENDS in a block that leads nowhere by itself (an if / case clause of actions only, a conditional break, an
+    action-only handler): the way back to the loop start is only linked afterwards, so the block has no symbols of its own when it
+    is appended after the preceding match. Also `append; yield` sequences on one clause with a string small enough to overflow."""
+    N = gen.N
+    L = lambda b: N("match", p=N("lit", bs=b, form="s"))
+    num = lambda v: N("num", v=v, text=str(v))
+    var = lambda x: N("var", name=x)
+    digits = lambda: N("rx", tree=("op", ("cls", "d"), "+"), binary=False)
+    out = []
+    for _ in range(n):
+        ycodes = ["YA", "YB"] if yields else []
+        def actions():
+            ch = [lambda: [N("hook", name="h")], lambda: [N("assign", var="m", e=N("bin", op="+", a=var("m"), b=num(1)))],
+                  lambda: [N("hook", name="h"), N("assign", var="n", e=num(0))], lambda: [N("assign", var="n", e=num(0)), N("hook", name="g")]]
+            if yields:
+                ch += [lambda: [N("yield", code="YA")], lambda: [N("hook", name="h"), N("yield", code="YB")], lambda: [N("assign", var="n", e=num(0)), N("yield", code="YA")]]
+            return rng.choice(ch)()
+        k = rng.choice([1, 5, 20, 100])
+        cond = lambda: N("bin", op=rng.choice([">", ">=", "==", "!="]), a=var(rng.choice(["n", "n", "m"])), b=num(rng.choice([0, 1, 2, k])))
+        heads = [
+            lambda: [N("foreach", body=[N("match", p=digits())], do=[N("assign", var="n", e=N("bin", op="+", a=N("bin", op="*", a=var("n"), b=num(10)), b=N("bin", op="-", a=N("last"), b=num(48))))]), L(b";")],
+            lambda: [L(b"a"), N("assign", var="n", e=N("bin", op="+", a=var("n"), b=num(1))), L(b";")],
+            lambda: [N("appendm", var="s", p=N("lit", bs=b"ab", form="s")), N("assign", var="n", e=N("len", name="s"))],
+            lambda: [N("case", greedy=False, clauses=[N("clause", preds=[N("lit", bs=b"a", form="s")], body=[N("assign", var="n", e=N("bin", op="+", a=var("n"), b=num(1)))], prio=None),
+                                                      N("clause", preds=[N("lit", bs=b"b", form="s")], body=[N("assign", var="m", e=N("bin", op="+", a=var("m"), b=num(1)))], prio=None)]), L(b";")],
+        ]
+        tails = [
+            lambda: [N("if", branches=[(cond(), actions())], orelse=None)],
+            lambda: [N("if", branches=[(cond(), actions())], orelse=actions())],
+            lambda: [N("if", branches=[(cond(), actions()), (cond(), actions())], orelse=None)],
+            lambda: [N("if", branches=[(cond(), [N("break", label=None)])], orelse=None)],
+            lambda: [N("if", branches=[(cond(), actions())], orelse=[N("break", label=None)])],
+            lambda: [N("if", branches=[(cond(), [N("if", branches=[(cond(), actions())], orelse=None)])], orelse=None)],
+            lambda: [N("if", branches=[(cond(), actions())], orelse=None), N("if", branches=[(cond(), actions())], orelse=None)],
+        ]
+        shape = 0.95 if family == "append-yield" else rng.random()
+        if shape < 0.75:
+            lp = N("loop", label=None, body=rng.choice(heads)() + rng.choice(tails)())
+            body = [L(b"<"), lp] + ([N("hook", name="t"), L(b"!")] if "break;" in gen.stmt_src(lp) else [])
+        elif shape < 0.9 or not yields:
+            # the same tail at the end of a case clause / handler inside the loop
+            inner = N("case", greedy=False, clauses=[N("clause", preds=[N("lit", bs=b"x", form="s")], body=rng.choice(heads)() + rng.choice(tails)(), prio=None),
+                                                      N("clause", preds=[N("lit", bs=b"y", form="s")], body=[N("hook", name="g")] + rng.choice(tails)(), prio=None)])
+            lp = N("loop", label=None, body=[inner])
+            body = [L(b"<"), lp] + ([N("hook", name="t"), L(b"!")] if "break;" in gen.stmt_src(lp) else [])
+        else:
+            # an append and a yield on one clause, string small enough to overflow (with and without a handler)
+            cl = lambda lit, acts: N("clause", preds=[N("lit", bs=lit, form="s")], body=acts, prio=None)
+            app = lambda: rng.choice([lambda: N("appendm", var="s", p=N("lit", bs=b"b", form="s")), lambda: N("appendc", var="s", e=rng.choice([num(65), N("last")]))])()
+            case = N("case", greedy=False, clauses=[cl(b"a", [app(), N("yield", code="YA")]), cl(b"c", [app(), N("hook", name="h"), N("yield", code="YB")]),
+                                                    cl(b"d", [N("yield", code="YB"), app()])][: rng.choice([1, 2, 3])])
+            lp = N("loop", label=None, body=[case])
+            body = [N("try", body=[lp], reasons=["outofspace"], handler=[N("hook", name="g"), L(b"!")])] if rng.random() < 0.4 else [lp]
+        outs = [N("out", name="n", typ="int", signed=None, width=None, default=0), N("out", name="m", typ="int", signed=None, width=None, default=0),
+                N("out", name="s", typ="str", size=rng.choice([2, 3, 5]), default=None)]
+        out.append(N("prog", outs=outs, hooks=["h", "g", "t"], fcodes=[], ycodes=ycodes, macros=[], body=body, args=["-fyield-support"] if yields else []))
+    return out
+
+
+def add_shapes(ctx, rng, pool, asts, counter, levels=("-O0", "-O1", "-O2", "-O3")):
+    """compile harness ASTs at a random level and put the accepted ones into a run_pool pool"""
+    n = 0
+    for ast in asts:
+        src = gen.prog_src(ast)
+        args = list(ast.args) + [rng.choice(levels), "-findirect-start-ptr"]
+        r = nm.compile_source(src, args, name="p0", keep=False)
+        ctx.count("programs_generated")
+        if r.ok:
+            pool.append((ast, src, args, None))
+            n += 1
+    ctx.cov[counter] = ctx.cov.get(counter, 0) + n
+    return n
+
+
 def run(ctx: Ctx):
     rng = ctx.rng
     quick = ctx.quick
@@ -194,6 +269,9 @@ def run(ctx: Ctx):
             acc_n += 1
     ctx.cov["chained_action_shapes_accepted"] = shaped
     ctx.cov.update({"programs_generated": gen_n, "programs_accepted": acc_n})
+    acc_n += add_shapes(ctx, rng, pool, loop_tail_shapes(rng, 24 if quick else 240) + loop_tail_shapes(rng, 12 if quick else 120, yields=True), "loop_tail_shapes_accepted")
+    acc_n += add_shapes(ctx, rng, pool, loop_tail_shapes(rng, 8 if quick else 80, yields=True, family="append-yield"), "append_yield_shapes_accepted", levels=("-O0", "-O2", "-O3", "-O3"))
+    ctx.cov["programs_accepted"] = acc_n
     ctx.extra["node_kinds_in_accepted"] = kinds
     run_pool(ctx, rng, quick, pool, "c01")
     ctx.floor("runs_checked", 3000 if quick else 60000)
